@@ -68,6 +68,8 @@ func main() {
 		cmdTransp(os.Args[2:])
 	case "blocks":
 		cmdBlocks(os.Args[2:])
+	case "par":
+		cmdPar(os.Args[2:])
 	case "play":
 		cmdPlay(os.Args[2:])
 	case "sweep16":
